@@ -57,6 +57,9 @@ type walker struct {
 	recv  string
 	f     *fn
 	fatal []string
+	// fields: also list the key/value pairs of composite literals (kind "field": dst = <type>.<key>, subj = value);
+	// only set for the sync-context extraction (-ctxout), the items of Gen/SyncPaths.lean stay as they are
+	fields bool
 }
 
 func (w *walker) expr(e ast.Expr) string {
@@ -139,6 +142,16 @@ func (w *walker) scan(n ast.Node, ctx []string, skip ast.Expr) {
 		case *ast.FuncLit:
 			w.block(v.Body, append(append([]string{}, ctx...), "func"))
 			return false
+		case *ast.CompositeLit:
+			if w.fields && v.Type != nil {
+				for _, el := range v.Elts {
+					if kv, ok := el.(*ast.KeyValueExpr); ok {
+						if id, ok := kv.Key.(*ast.Ident); ok {
+							w.add(item{kind: "field", dst: types.ExprString(v.Type) + "." + id.Name, subj: w.expr(kv.Value)}, ctx)
+						}
+					}
+				}
+			}
 		case *ast.CallExpr:
 			callees[v.Fun] = true
 			if s, ok := v.Fun.(*ast.SelectorExpr); ok && s.Sel.Name == "processor" {
@@ -346,6 +359,123 @@ func (w *walker) cases(body *ast.BlockStmt, ctx []string, head string) {
 	}
 }
 
+// ---------------------------------------------------------------------------------------------
+// sync context (property C19, obligations in lean/LiskVerif/Props/C19_ContextGen.lean)
+//
+// The synchronisers run on the sync.SyncContext that Executer.createSyncContext (pkg/consensus/execute.go) builds.
+// writeSyncCtx lists, for createSyncContext and for Executer.process (which hands the context to Syncer.Sync), the
+// items of the vocabulary above plus `field` items for composite literals, and, over pkg/consensus and
+// pkg/consensus/sync (`*_test.go`, `*_verif.go` skipped): every function that contains a composite literal of
+// type SyncContext, and every assignment to a selector `.FinalizedBlockHeader` / `.CurrentValidators`.
+func writeSyncCtx(repo, out string) error {
+	fset := token.NewFileSet()
+	var emitted []*fn
+	var literals, fieldWrites, fatal []string
+	for _, sub := range []string{"", "sync"} {
+		dir := filepath.Join(repo, "pkg", "consensus", sub)
+		files, err := filepath.Glob(filepath.Join(dir, "*.go"))
+		if err != nil || len(files) == 0 {
+			return fmt.Errorf("no sources in %s", dir)
+		}
+		sort.Strings(files)
+		for _, path := range files {
+			base := filepath.Base(path)
+			if strings.HasSuffix(base, "_test.go") || strings.HasSuffix(base, "_verif.go") {
+				continue
+			}
+			file, err := parser.ParseFile(fset, path, nil, 0)
+			if err != nil {
+				return err
+			}
+			for _, d := range file.Decls {
+				fd, ok := d.(*ast.FuncDecl)
+				if !ok || fd.Body == nil {
+					continue
+				}
+				name, recv := fd.Name.Name, ""
+				if fd.Recv != nil && len(fd.Recv.List) == 1 {
+					t := fd.Recv.List[0].Type
+					if st, ok := t.(*ast.StarExpr); ok {
+						t = st.X
+					}
+					name = types.ExprString(t) + "." + name
+					if len(fd.Recv.List[0].Names) == 1 {
+						recv = fd.Recv.List[0].Names[0].Name
+					}
+				}
+				ast.Inspect(fd.Body, func(x ast.Node) bool {
+					switch v := x.(type) {
+					case *ast.CompositeLit:
+						if v.Type != nil {
+							if ts := types.ExprString(v.Type); ts == "SyncContext" || strings.HasSuffix(ts, ".SyncContext") {
+								literals = append(literals, name)
+							}
+						}
+					case *ast.AssignStmt:
+						for _, l := range v.Lhs {
+							if se, ok := l.(*ast.SelectorExpr); ok && (se.Sel.Name == "FinalizedBlockHeader" || se.Sel.Name == "CurrentValidators") {
+								fieldWrites = append(fieldWrites, name+": "+types.ExprString(l))
+							}
+						}
+					}
+					return true
+				})
+				if sub == "" && (name == "Executer.createSyncContext" || name == "Executer.process") {
+					w := &walker{recv: recv, f: &fn{name: name, file: base}, fields: true}
+					w.block(fd.Body, nil)
+					fatal = append(fatal, w.fatal...)
+					emitted = append(emitted, w.f)
+				}
+			}
+		}
+	}
+	if len(fatal) != 0 {
+		return fmt.Errorf("%s", strings.Join(fatal, "; "))
+	}
+	var sb strings.Builder
+	sb.WriteString("/- GENERATED by tools/syncpathgen (-ctxout) from /repo/pkg/consensus — do not edit. Regenerated on every check run.\n")
+	sb.WriteString("   Where the fields of the sync.SyncContext handed to the synchronisers come from: assignment / field / return\n")
+	sb.WriteString("   items of Executer.createSyncContext and Executer.process in program order (vocabulary: tools/syncpathgen/main.go). -/\n")
+	sb.WriteString("import LiskVerif.Gen.SyncPaths\n\nnamespace LiskVerif.Gen.SyncCtxSrc\nopen LiskVerif.Gen.SyncPaths (Item Fn)\n\n")
+	var names []string
+	for _, f := range emitted {
+		ident := strings.NewReplacer(".", "_").Replace(f.name)
+		names = append(names, ident)
+		fmt.Fprintf(&sb, "/-- pkg/consensus/%s: %s -/\ndef %s : Fn := { name := %s, file := %s, items := [\n", f.file, f.name, ident, q(f.name), q(f.file))
+		for i, it := range f.items {
+			fields := []string{"kind := " + q(it.kind)}
+			if it.subj != "" {
+				fields = append(fields, "subj := "+q(it.subj))
+			}
+			if it.dst != "" {
+				fields = append(fields, "dst := "+q(it.dst))
+			}
+			if len(it.ctx) != 0 {
+				fields = append(fields, "ctx := "+qlist(it.ctx))
+			}
+			if it.exits {
+				fields = append(fields, "exits := true")
+			}
+			sep := ","
+			if i == len(f.items)-1 {
+				sep = ""
+			}
+			fmt.Fprintf(&sb, "  { %s }%s\n", strings.Join(fields, ", "), sep)
+		}
+		sb.WriteString("] }\n\n")
+	}
+	fmt.Fprintf(&sb, "/-- the extracted functions, in file order -/\ndef fns : List Fn := [%s]\n\n", strings.Join(names, ", "))
+	fmt.Fprintf(&sb, "/-- every function of pkg/consensus and pkg/consensus/sync that builds a SyncContext with a composite literal -/\ndef contextLiterals : List String := %s\n\n", qlist(literals))
+	fmt.Fprintf(&sb, "/-- every assignment to a selector `.FinalizedBlockHeader` / `.CurrentValidators` in these packages (`function: lhs`) -/\ndef contextFieldWrites : List String := %s\n\n", qlist(fieldWrites))
+	sb.WriteString("end LiskVerif.Gen.SyncCtxSrc\n")
+	// (atomic replacement: a failing run leaves the committed file)
+	tmp := out + ".tmp"
+	if err := os.WriteFile(tmp, []byte(sb.String()), 0o644); err != nil {
+		return err
+	}
+	return os.Rename(tmp, out)
+}
+
 func q(s string) string { return strconv.Quote(s) }
 
 func qlist(l []string) string {
@@ -359,7 +489,14 @@ func qlist(l []string) string {
 func main() {
 	repo := flag.String("repo", "/repo", "repository root")
 	out := flag.String("out", "", "output file")
+	ctxOut := flag.String("ctxout", "", "output file for the sources of the sync context (Gen/SyncCtxSrc.lean)")
 	flag.Parse()
+	if *ctxOut != "" {
+		if err := writeSyncCtx(*repo, *ctxOut); err != nil {
+			fmt.Fprintln(os.Stderr, "syncpathgen:", err)
+			os.Exit(1)
+		}
+	}
 	dir := filepath.Join(*repo, "pkg", "consensus", "sync")
 	files, err := filepath.Glob(filepath.Join(dir, "*.go"))
 	if err != nil || len(files) == 0 {
